@@ -1,9 +1,9 @@
-\* C20 negative config: Content-Length not updated after the rewrite: TLC must reject LengthMatchesBody.
+\* C20 negative config: the response is parsed with scripting disabled (noscript content becomes markup): TLC must reject DocumentOnlyAppendedTo.
 CONSTANTS
   UnsupportedRule = "pass"
-  ParseRule = "scripting"
+  ParseRule = "noscripting"
   CspRule = "policylist"
-  LengthRule = "forget"
+  LengthRule = "set"
   EmitCases = FALSE
 INIT Init
 NEXT Next
